@@ -26,6 +26,7 @@ EXPLANATION = (
 def run(ctx: Ctx) -> None:
     repo = ctx.repo
     handled = mirror.rule_mirror(ctx)
+    mirror.rule_guarded_first(ctx)
     tables.rule_vocab(ctx, "vocab.gates", [(STABF, "inverse_circuit")], "TimeReversedSolver._add_gates_from_str", handled)
     solvers.rule_frontinsert(ctx)
     solvers.rule_result_provenance(ctx, TRS, "TimeReversedSolver.solve", False)
